@@ -2170,7 +2170,8 @@ class Engine:
                     sv = args[star_at]
                     items = self.static_items(sv)
                     if items is None:
-                        if f.k == 'func' and isinstance(f.py, tuple) and (f.py[0] == 'spec' or self.has_policy(f)):
+                        if (f.k == 'func' and isinstance(f.py, tuple) and (f.py[0] == 'spec' or self.has_policy(f))) \
+                                or (f.k == 'obj' and self.contract.hooks.get('call')):
                             # a ghost (contract-defined) callee gets the sequence as one marked argument
                             items = [V('star', extra={'seq': sv})]
                         else:
